@@ -1,10 +1,32 @@
 ------------------------------- MODULE MCExplore -------------------------------
-EXTENDS Explore, TLC, Json, IOUtils, CSV, SequencesExt
+EXTENDS Explore, TLC, Json, IOUtils, CSV, SequencesExt, Randomization
 CONSTANTS MaxLen, OutFile
 Bound == Len(hist) <= MaxLen
+\* generation: one randomly chosen discovery update is offered per step, so that schedules are not
+\* dominated by updates
+GenNext ==
+  \/ \E S \in RandomSubset(1, SUBSET Targets) : Update(S)
+  \/ \E t \in Targets : Get(t)
+  \/ \E w \in Workers : Dequeue(w) \/ ProbeOK(w) \/ ProbeFail(w)
+  \/ \E o \in timers : TimerFire(o)
+GenSpec == Init /\ [][GenNext]_vars
 View == <<table, st, nobj, queue, busy, timers, fails>>
 \* schedules for the harness: the history of a simulated behaviour
 HJson == [k \in DOMAIN hist |-> [ev |-> hist[k].ev, t |-> hist[k].t,
              set |-> IF hist[k].ev = "update" THEN SetToSeq(hist[k].x) ELSE <<>>]]
+\* scenario prefixes worth executing on the real explorer: reached states in which an entry object is
+\* stale (its target was removed, or removed and discovered again) while it is still queued, being
+\* probed or waiting for its retry - and plain retries / lookups after success.  Exported from the
+\* exhaustive run (one shortest history per distinct state).
+Stale(o) == LET t == st[o].t IN t \notin DOMAIN table \/ table[t] # o
+Rediscovered(o) == LET t == st[o].t IN t \in DOMAIN table /\ table[t] # o
+InQueue == {queue[k] : k \in DOMAIN queue}
+Scenario ==
+  \/ \E o \in timers : Stale(o)
+  \/ \E o \in InQueue : Stale(o)
+  \/ \E w \in Workers : busy[w].o # 0 /\ Rediscovered(busy[w].o)
+  \/ \E o \in timers : ~Stale(o)
+  \/ \E t \in DOMAIN table : st[table[t]].probed
+ExportScenario == (Scenario /\ Len(hist) >= 3) => CSVWrite("%1$s", <<ToJson([steps |-> HJson])>>, OutFile)
 Export == Len(hist) = MaxLen => CSVWrite("%1$s", <<ToJson([steps |-> HJson])>>, OutFile)
 =============================================================================
